@@ -34,8 +34,31 @@ const (
 	CbReject                    // returns ws.RejectConnectionError(status, headers, reason)
 )
 
+// ErrValueKind is the dynamic type of a plain (non-rejection) error value a
+// callback returns. Some are not comparable/hashable: the library may compare
+// an error with its own sentinels but must not hash it or compare it with a
+// value of its own type.
+type ErrValueKind int
+
+const (
+	ErrNew         ErrValueKind = iota // errors.New
+	ErrWrapped                         // fmt.Errorf("...: %w", errors.New(...))
+	ErrValueStruct                     // a comparable struct value (not a pointer)
+	ErrSliceStruct                     // a struct value holding a slice: not comparable
+	ErrSlice                           // type fieldErrors []string: not comparable
+	ErrMap                             // a map type: not comparable
+	ErrFunc                            // a func type: not comparable
+	ErrTypedNil                        // a nil *T in the error interface; T's Error method handles nil
+	NumErrValueKinds
+)
+
+func (k ErrValueKind) String() string {
+	return [...]string{"errors.New", "fmt.Errorf-%w", "struct-value", "struct-with-slice", "slice-type", "map-type", "func-type", "typed-nil-pointer"}[k]
+}
+
 // Outcome is the (constant) behaviour of one callback.
 type Outcome struct {
+	ErrKind ErrValueKind // CbError: what kind of value the plain error is
 	Kind    OutcomeKind
 	Status  int        // CbReject: the chosen status; 0 = built without ws.RejectionStatus (answered with 500)
 	Reason  string     // CbError/CbReject: the error text
@@ -60,7 +83,7 @@ func (o Outcome) String() string {
 	case CbAccept:
 		return "accept"
 	case CbError:
-		return "error"
+		return "error(" + o.ErrKind.String() + ")"
 	}
 	if o.Status == 0 {
 		return "reject(no status)"
@@ -94,6 +117,7 @@ const (
 
 // ExtPolicy is the behaviour for one extension name. Names without a policy are declined.
 type ExtPolicy struct {
+	ErrKind ErrValueKind // ExtPlainError: what kind of value the error is
 	Act     ExtAct
 	Status  int
 	Reason  string
